@@ -153,6 +153,10 @@ func TestNNS(t *testing.T) { Sim(t, nnsBody) }
 func (e *nnsEngine) run() {
 	t := e.r.T
 	ns := []int{1, 3, 4, 7}
+	if !Thorough() && Chance(t, "rareN", 12) {
+		// sizes with 3k+2 members and the larger even one, now and then
+		ns = []int{2, 5, 6}
+	}
 	if Thorough() {
 		ns = []int{1, 3, 4, 7, 2, 5, 6}
 	}
@@ -963,7 +967,11 @@ func (e *nnsEngine) signersFor(c *nnsCall, class int, now int64) ([]Signer, stri
 	case 9:
 		out, fault = withExtra([]Signer{Single("member0", w.Privs[0])}), "wit.single"
 	default:
-		if c.kind == nnsOpRegisterTLD && w.Alphabet.Hash != w.Committee.Hash {
+		short, okShort := OneShort(w, w.Committee)
+		if okShort && owner != nil && bytes.Equal(owner, w.Committee.Hash.BytesBE()) && now%2 == 0 {
+			// the committee's keys, one signature short of the majority
+			out, fault = withExtra([]Signer{short}), "wit.one_short"
+		} else if c.kind == nnsOpRegisterTLD && w.Alphabet.Hash != w.Committee.Hash {
 			out, fault = []Signer{w.Alphabet}, "wit.swap_threshold"
 		} else if n != nil && len(n.exAdmins) > 0 {
 			out, fault = withExtra(add(nil, n.exAdmins[0])), "wit.other_key"
@@ -2002,8 +2010,14 @@ func (e *nnsEngine) step(bt *nnsTx, aer *state.AppExecResult, now int64, idx int
 		case nnsOpAddRec, nnsOpSetRec, nnsOpDelRec, nnsOpUpdateSOA:
 			rule = "C12/valid-call-refused"
 		}
-		r.Violation(rule, "", "%s by %s refused: %s %s", c.desc(), signerNames(c.signers), aer.VMState, aer.FaultException)
-		return
+		if strings.SplitN(rule, "/", 2)[0] == r.Prop && !r.shadow {
+			r.Violation(rule, "", "%s by %s refused: %s %s", c.desc(), signerNames(c.signers), aer.VMState, aer.FaultException)
+			return
+		}
+		// Another property's rule, and a refusal changes nothing (checked below
+		// like for every refused call): the model stays in sync and the run
+		// goes on, so that this property's own rules see the rest of the history.
+		r.Count("foreign_refusal_not_judged." + rule)
 	}
 	if !took {
 		r.Count("why." + kind + "." + v.why)
